@@ -1,6 +1,8 @@
 package lmm
 
 import (
+	"bytes"
+	"compress/gzip"
 	"encoding/binary"
 	"encoding/json"
 	"fmt"
@@ -12,6 +14,7 @@ import (
 
 	"github.com/janelia-flyem/dvid/datatype/common/labels"
 	"github.com/janelia-flyem/dvid/datatype/common/proto"
+	"github.com/janelia-flyem/dvid/dvid"
 
 	"verifharness/internal/node"
 )
@@ -129,6 +132,9 @@ type Inst struct {
 type Labels struct {
 	ToReal map[uint64]uint64
 	ToSpec map[uint64]uint64
+	// BindFromVolume: the next comparison may bind still-unbound specification labels to the
+	// labels found in the stored voxels (ids the server allocated without reporting them)
+	BindFromVolume bool
 }
 
 // NewLabels returns the identity on nothing.
@@ -346,6 +352,50 @@ func (in *Inst) Apply(uuid string, op Op, lab *Labels) (int, []string, error) {
 			return 400, nil, nil
 		}
 		return 200, nil, nil
+	case "split":
+		reg := map[int]bool{}
+		for _, r := range op.Regions {
+			reg[r] = true
+		}
+		r, err := in.http("POST", fmt.Sprintf("%s/split/%d", base, lab.Real(op.Body)), EncodeRLEs(in.G.RegionRLEs(reg)))
+		if err != nil || r.Status != 200 {
+			return r.Status, nil, err
+		}
+		var o struct {
+			Label      uint64 `json:"label"`
+			MutationID uint64
+		}
+		json.Unmarshal(r.Bytes(), &o)
+		if o.MutationID != 0 {
+			in.noteMut(o.MutationID, &probs, "split")
+		}
+		in.noteAlloc(o.Label, &probs, "split")
+		lab.Bind(op.New, o.Label)
+		// the ids of the split / remain supervoxels are not in the response: bound from the voxels
+		lab.BindFromVolume = true
+		return 200, probs, nil
+	case "reindex":
+		// re-ingest the body's own index: must change nothing
+		rb := lab.Real(op.Body)
+		r, err := in.http("GET", fmt.Sprintf("%s/index/%d", base, rb), nil)
+		if err != nil || r.Status != 200 {
+			return r.Status, nil, err
+		}
+		r2, err := in.http("POST", fmt.Sprintf("%s/index/%d", base, rb), r.Bytes())
+		return r2.Status, nil, err
+	case "remap":
+		// re-ingest the current mapping of the body's supervoxels: must change nothing
+		rb := lab.Real(op.Body)
+		r, err := in.http("GET", fmt.Sprintf("%s/supervoxels/%d", base, rb), nil)
+		if err != nil || r.Status != 200 {
+			return r.Status, nil, err
+		}
+		var svs []uint64
+		json.Unmarshal(r.Bytes(), &svs)
+		m := &proto.MappingOps{Mappings: []*proto.MappingOp{{Mutid: 0, Mapped: rb, Original: svs}}}
+		b, _ := pb.Marshal(m)
+		r2, err := in.http("POST", base+"/mappings", b)
+		return r2.Status, nil, err
 	case "renumber":
 		// the new label is chosen by the client: above everything seen so far
 		newReal := in.MaxSeen + 3
@@ -422,6 +472,34 @@ func (in *Inst) Compare(uuid string, want Obs, lab *Labels, lvl Level) ([]string
 		return append(d, fmt.Sprintf("GET raw?supervoxels=true: status %d", st)), nil
 	}
 	gotSV, bad := g.VolumeToRegions(vol)
+	if bad == "" && lab.BindFromVolume {
+		lab.BindFromVolume = false
+		for r := range want.SV {
+			m := want.SV[r]
+			if _, bound := lab.ToReal[m]; bound || m == 0 {
+				continue
+			}
+			real := gotSV[r]
+			if real == m {
+				continue // an original label: identity
+			}
+			if _, taken := lab.ToSpec[real]; taken || real <= in.MaxSeen {
+				d = append(d, fmt.Sprintf("region %d: the new supervoxel of the specification (%d) is stored as %d, which is not a fresh label", r+1, m, real))
+				continue
+			}
+			lab.Bind(m, real)
+		}
+		for _, m := range want.SV {
+			if real, ok := lab.ToReal[m]; ok && real > in.MaxSeen {
+				in.Alloc = append(in.Alloc, real)
+			}
+		}
+		for _, a := range in.Alloc {
+			if a > in.MaxSeen {
+				in.MaxSeen = a
+			}
+		}
+	}
 	if bad != "" {
 		d = append(d, "supervoxel volume: "+bad)
 	} else {
@@ -758,4 +836,49 @@ func (in *Inst) CompareLevels(uuid string, want Obs, lab *Labels, l1, l2 *LevelT
 		}
 	}
 	return d, nil
+}
+
+// IngestBlocks stores the blocks through POST blocks (gzip-compressed DVID label blocks).
+func (in *Inst) IngestBlocks(uuid string, sv []uint64, blocks []int) error {
+	var buf bytes.Buffer
+	bs := dvid.Point3d{int32(in.G.BS), int32(in.G.BS), int32(in.G.BS)}
+	for _, blk := range blocks {
+		vol := in.G.BlockVolume(blk, func(r int) uint64 {
+			if r == 0 {
+				return 0
+			}
+			return sv[r-1]
+		})
+		b, err := labels.MakeBlock(vol, bs)
+		if err != nil {
+			return err
+		}
+		ser, err := b.MarshalBinary()
+		if err != nil {
+			return err
+		}
+		var zbuf bytes.Buffer
+		zw := gzip.NewWriter(&zbuf)
+		zw.Write(ser)
+		zw.Close()
+		bc := in.G.Blocks[blk-1]
+		for _, c := range bc {
+			binary.Write(&buf, binary.LittleEndian, int32(c))
+		}
+		binary.Write(&buf, binary.LittleEndian, int32(zbuf.Len()))
+		buf.Write(zbuf.Bytes())
+	}
+	r, err := in.http("POST", "/api/node/"+uuid+"/"+in.Name+"/blocks", buf.Bytes())
+	if err != nil {
+		return err
+	}
+	if r.Status != 200 {
+		return fmt.Errorf("POST blocks: %d %s", r.Status, r.Bytes())
+	}
+	for _, l := range sv {
+		if l > in.MaxSeen {
+			in.MaxSeen = l
+		}
+	}
+	return nil
 }
